@@ -32,7 +32,17 @@ func (x Expr) Append(buf []byte, brackets ...bool) []byte {
 			bracket = true
 			continue
 		}
+		n := len(buf)
 		buf = frag.Append(buf, bracket, i == 0)
+		if 0 < i && !bracket && n < len(buf) && buf[n] == '[' {
+			if _, ok := x[i-1].(Descent); ok {
+				// A descent only wrote one of its two dots, the other is
+				// expected from the next fragment.
+				buf = append(buf, '.')
+				copy(buf[n+1:], buf[n:])
+				buf[n] = '.'
+			}
+		}
 	}
 	if 0 < len(x) {
 		if _, ok := x[len(x)-1].(Descent); ok {
